@@ -49,7 +49,9 @@ ASSUMPTIONS = [
     "the library is given the exact rule ids that the command's runs printed or that an unfiltered library run produced "
     "under the command's rule-id prefix (the docs' short names are a different feature)",
     "configuration = the project's .thailint.yaml, autodiscovered by both entry points or (1 case in 4) named explicitly to both "
-    "(`cmd --config .thailint.yaml` / `Linter(config_file='.thailint.yaml')`); other carriers and locations are C05's subject",
+    "(`cmd --config .thailint.yaml` / `Linter(config_file='.thailint.yaml')`); other carriers and locations are C05's subject; "
+    "with autodiscovery, now and then a .thailint.json and/or a pyproject.toml [tool.thailint] with other thresholds lies next to it "
+    "(which file wins is not judged here, only that both entry points pick the same)",
     "every run uses a fresh process-like CLI invocation / a fresh Linter (object reuse is C08's subject)",
     "explicit file arguments are distinct and never lie inside a directory argument of the same run",
     "cross-file rules (dry, stringly-typed) are excluded from the union laws, as the statement says",
@@ -168,7 +170,10 @@ def cases(draw):
         libfiles.append(both[0])
     explicit_config = draw(st.sampled_from([0, 0, 0, 1, 2, 2]))
     return {"cmd": cmd, "files": files, "subset": subset, "subdir": subdir, "recursive": recursive, "libfiles": libfiles,
-            "explicit_config": explicit_config, "langcfg": explicit_config != 2 and draw(st.booleans())}
+            "explicit_config": explicit_config, "langcfg": explicit_config != 2 and draw(st.booleans()),
+            # other discoverable configuration files with different settings next to .thailint.yaml: whichever file the tool
+            # prefers, the CLI and the library must prefer the same one
+            "decoy": draw(st.sampled_from([None, None, "json", "json", "pyproject", "json+pyproject"])) if explicit_config == 0 else None}
 
 
 def _join(d, name):
@@ -290,13 +295,20 @@ def check(case) -> Case:
     paths = [f["p"] for f in files]
     failures = []
     labels = [f"cmd={cmd}", "cross-file" if cross else "per-file", f"nfiles={len(files)}", f"recursive={case['recursive']}",
-              "subdir" if case["subdir"] else "no-subdir", ["config=autodiscovered", "config=explicit", "config=explicit-alternative-file"][int(case.get("explicit_config") or 0)],
+              "subdir" if case["subdir"] else "no-subdir", ["config=autodiscovered", "config=explicit", "config=explicit-alternative-file"][int(case.get("explicit_config") or 0)], f"decoy={case.get('decoy')}",
               "per-language-sections" if case.get("langcfg") else "flat-sections"]
     with Project({f["p"]: render(f) for f in files}, config=HOSTILE if case.get("explicit_config") == 2 else (LANGCFG if case.get("langcfg") else CONFIG)) as p:
         if case.get("explicit_config") == 2:
             from vf.project import to_yaml
 
             p.write(ALT_NAME, to_yaml(CONFIG))
+        decoy = case.get("decoy") or ""
+        if "json" in decoy:
+            import json as _json
+            p.write(".thailint.json", _json.dumps(HOSTILE, indent=2))
+        if "pyproject" in decoy:
+            p.write("pyproject.toml", "[project]\nname = \"decoy\"\nversion = \"0.1.0\"\n\n[tool.thailint.nesting]\nmax_nesting_depth = 1\n\n"
+                    "[tool.thailint.srp]\nmax_methods = 1\nmax_loc = 5\n\n[tool.thailint.magic-numbers]\nallowed_numbers = [0]\n")
         runs = Runs(p, cmd, failures, case.get("explicit_config", False))
         base = {"cmd": cmd, "files": paths}
         root_ms = runs.cli(["."])
@@ -356,7 +368,7 @@ def check(case) -> Case:
     if any(f["p"].startswith("pkg/build/") for f in files):
         labels.append("file-in-excluded-dir")
     shape = sorted([os.path.dirname(f["p"]), f["lang"], ",".join(sorted(s[0] for s in f.get("snips", []))) or f.get("set") or f.get("special") or ""] for f in files)
-    key = h([cmd, shape, len(case["subset"]), case["subdir"], case["recursive"], bool(case.get("explicit_config"))])
+    key = h([cmd, shape, len(case["subset"]), case["subdir"], case["recursive"], bool(case.get("explicit_config")), case.get("decoy")])
     return Case(key=key, nontrivial=nontrivial, labels=labels, failures=failures)
 
 
